@@ -231,6 +231,14 @@ func (m *machine) genTx() *types.Transaction {
 	if n < 0 {
 		n = 0
 	}
+	nonce := uint64(n)
+	// nonces are attacker-chosen 64-bit values: far-ahead ones around 2^31, 2^32, 2^63 and 2^64 must be held back
+	// like any other nonce that lies ahead of the sender's next expected one
+	if rapid.IntRange(0, 24).Draw(t, "extremeNonce") == 0 {
+		base := rapid.SampledFrom([]uint64{1 << 31, 1 << 32, 1<<63 - 1, 1 << 63, ^uint64(0) - 5}).Draw(t, "nonceBase")
+		nonce = base + uint64(rapid.IntRange(0, 5).Draw(t, "nonceOff"))
+		m.t.Logf("extreme nonce %d", nonce)
+	}
 	var req uint64
 	if rapid.IntRange(0, 4).Draw(t, "hasReqId") == 0 {
 		req = uint64(rapid.IntRange(1, 40).Draw(t, "reqId"))
@@ -239,7 +247,7 @@ func (m *machine) genTx() *types.Transaction {
 	if rapid.IntRange(0, 7).Draw(t, "gate") == 0 {
 		gate = uint64(rapid.IntRange(1, 1000).Draw(t, "gateNonce"))
 	}
-	return m.newTx(s, typ, uint64(n), req, gate, m.genDataLen())
+	return m.newTx(s, typ, nonce, req, gate, m.genDataLen())
 }
 
 // genDataLen: mostly no call data, some 1-4 KB, rarely a transaction whose record alone is larger
